@@ -183,7 +183,9 @@ def scenario(draw) -> Dict[str, Any]:
             # ... and in those, one more browser may be started long after everything has settled (past half of the pointer TTL, when
             # the host's cache entries are stale but valid), on any host: it has to report the registered instances like the others
             'late_browser': draw(st.sampled_from([None, {'host': draw(st.integers(0, n_hosts - 1)), 'types': draw(st.lists(st.integers(0, 2), min_size=1, max_size=3, unique=True).map(sorted)),
-                                                         'at_s': draw(st.sampled_from([600, 2300, 2400, 3000, 3500]))}])),
+                                                         'at_s': draw(st.sampled_from([600, 2100, 2200, 2300, 2400, 3000, 3500])),
+                                                         # (it may be cancelled half a minute later: its questions were asked, it refreshes nothing)
+                                                         'cancel': draw(st.booleans())}])),
             'drops': [[draw(st.integers(0, 999)), draw(st.sampled_from(['all', 'one'])), draw(st.sampled_from(['any', 'critical', 'critical', 'goodbye', 'goodbye-last']))]
                       for _ in range(3)]}
     lb = case['late_browser']
@@ -474,9 +476,16 @@ class Run:
                     slept = lb['at_s']
                 self.late_listener = sim.RecListener(w, tag=f"H{lb['host']}", on_add=on_add)
                 types = [TYPES[i] for i in lb['types']]
-                AsyncServiceBrowser(hosts[lb['host']].zc, types if len(types) > 1 else types[0], listener=self.late_listener)
+                late_br = AsyncServiceBrowser(hosts[lb['host']].zc, types if len(types) > 1 else types[0], listener=self.late_listener)
+                if lb.get('cancel') and lb['at_s'] != 'expiry' and case['late_s'] - slept > 120:
+                    await asyncio.sleep(30.0)
+                    slept += 30.0
+                    self.late_browser_live = {t: set(v) for t, v in self.late_listener.live().items()}
+                    self.late_browser_events = list(self.late_listener.events)
+                    await late_br.async_cancel()
+                    self.late_cancelled = True
             await asyncio.sleep(case['late_s'] - slept)
-            if self.late_listener is not None:
+            if self.late_listener is not None and not getattr(self, 'late_cancelled', False):
                 self.late_browser_live = {t: set(v) for t, v in self.late_listener.live().items()}      # before the hosts are torn down
                 self.late_browser_events = list(self.late_listener.events)
             self.late_live = {bi: {t: set(v) for t, v in lst.live().items()} for bi, lst in self.listeners.items()}
